@@ -152,6 +152,7 @@ def gen_shape_case(idx, row):
     out.append('    for k in 0..%d {' % g.n)
     if has_borrowed:
         out.append('      if traced[k] { continue; }  // a guard of the borrowed RefCell would outlive the reclaimed value')
+    out.append('      let base_bytes = rust_cc::state::allocated_bytes().unwrap();')
     out.append('      reset(%d); let h = Cc::new(%s::build());' % (g.n, H))
     out.append('      { let pr = h.probes(); *pr[k].link.borrow_mut() = Some(h.clone()); }')
     out.append('      buffer(&h);')
@@ -162,6 +163,7 @@ def gen_shape_case(idx, row):
     out.append('      { %scollect_cycles(); collect_cycles(); }' % borrows)
     out.append('      let exp = if traced[k] { 1 } else { 0 };')
     out.append('      rep.check(drops() == exp, || format!("{}: cycle through leaf {} reclaimed {} times, expected {}", name, k, drops(), exp));')
+    out.append('      if traced[k] { let now = rust_cc::state::allocated_bytes().unwrap(); rep.check(now == base_bytes, || format!("[C03] {}: the value reclaimed through leaf {} was dropped but its allocation was not released ({} bytes still allocated)", name, k, now - base_bytes)); }')
     out.append('    }')
     out.append('}')
     return '\n'.join(out)
